@@ -53,9 +53,14 @@ Lemma join_gen_inv leb prune inputs j :
                   ++ source_logs 1 (m0 :: rest)
     /\ (j_date j = m_date m0 /\ j_time j = m_time m0
         /\ j_sample j = m_sample m0 /\ j_run j = JOIN_RUN_INDEX
-        /\ j_count j = event_count (j_cols j)).
+        /\ j_count j = event_count (j_cols j))
+    /\ (2 <= length inputs)%nat
+    /\ forallb wf_datetime inputs = true.
 Proof.
   unfold join_gen, sorted_gen, tagged_leb. cbv zeta.
+  destruct (length inputs <? 2)%nat eqn:Elen; [discriminate|].
+  destruct (forallb wf_datetime inputs) eqn:Ewf; [|discriminate].
+  cbn [negb].
   destruct (map snd (py_sorted _ (tag_from 0 inputs))) as [|m0 rest] eqn:E;
     [discriminate|].
   destruct (prune_all prune (py_sorted Z.leb (m_innate m0)) rest)
@@ -66,6 +71,7 @@ Proof.
   intros [= <-]. exists m0, rest.
   cbn [j_order j_feats j_cols j_logs j_date j_time j_sample j_run j_count].
   rewrite Ep. cbn [fst snd]. repeat split; auto.
+  apply Nat.ltb_ge in Elen. exact Elen.
 Qed.
 
 (* ---- features ------------------------------------------------------------ *)
@@ -342,13 +348,25 @@ Proof.
   apply Forall_map. exact Hf.
 Qed.
 
-(* whatever the inputs (well-formed, at least one), in whatever order: the
-   fixed join produces its output; no KeyError, no OverflowError *)
+Lemma wf_all_datetime inputs :
+  Forall wf_meas inputs -> forallb wf_datetime inputs = true.
+Proof.
+  intros H. apply forallb_forall. intros m Hm. rewrite Forall_forall in H.
+  destruct (H m Hm) as [_ [_ [_ [_ Hd]]]]. exact Hd.
+Qed.
+
+(* whatever the inputs (well-formed, at least two), in whatever order: the
+   fixed join produces its output; no KeyError, no OverflowError, no
+   ValueError *)
 Theorem join_fixed_total inputs :
-  inputs <> [] -> Forall wf_meas inputs ->
+  (2 <= length inputs)%nat -> Forall wf_meas inputs ->
   exists j, join_fixed inputs = Ok j.
 Proof.
-  intros Hne Hwf. unfold join_fixed, join_gen. cbv zeta.
+  intros Hlen Hwf.
+  assert (Hne : inputs <> []) by (destruct inputs; [cbn in Hlen; lia|discriminate]).
+  unfold join_fixed, join_gen. cbv zeta.
+  apply Nat.ltb_ge in Hlen. rewrite Hlen.
+  rewrite (wf_all_datetime _ Hwf). cbn [negb].
   fold (tagged_leb leb_num). fold (sorted_gen leb_num inputs).
   pose proof (sorted_gen_perm leb_num inputs) as Hperm.
   destruct (join_order_chronological inputs) as [_ [Hsorted _]].
@@ -422,7 +440,7 @@ Theorem join_meta_from_earliest inputs j :
          = fold_right Z.add 0 (map (fun m => len (getcol f m)) (m0 :: rest)).
 Proof.
   intros H. pose proof (join_gen_inv _ _ _ _ H) as Hinv.
-  destruct Hinv as [m0 [rest [Hs [_ [_ [Hj [_ [Hd [Ht [Hsa [Hr Hc]]]]]]]]]]].
+  destruct Hinv as [m0 [rest [Hs [_ [_ [Hj [_ [[Hd [Ht [Hsa [Hr Hc]]]] _]]]]]]]].
   exists m0, rest. repeat split; auto.
   - destruct (join_order_chronological inputs) as [_ [Hsorted _]].
     apply (StronglySorted_map_snd (fun a b => leb_num a b = true)) in Hsorted.
@@ -432,6 +450,98 @@ Proof.
   - intros f fs Hfs. rewrite Hc. apply join_files_spec in Hj.
     rewrite Hj, Hfs. cbn [map fst snd event_count].
     rewrite final_col_length. reflexivity.
+Qed.
+
+(* ---- malformed calls ------------------------------------------------------- *)
+(* fewer than two inputs, or a date/time strptime/float reject: ValueError *)
+Theorem join_rejects inputs :
+  (length inputs < 2)%nat \/ (exists m, In m inputs /\ wf_datetime m = false) ->
+  join_fixed inputs = Err EValue.
+Proof.
+  intros H. unfold join_fixed, join_gen. cbv zeta.
+  destruct (length inputs <? 2)%nat eqn:Elen; [reflexivity|].
+  destruct H as [H|[m [Hm Hd]]].
+  - apply Nat.ltb_ge in Elen. lia.
+  - assert (Hf : forallb wf_datetime inputs = false).
+    { apply not_true_iff_false. intros Hall. rewrite forallb_forall in Hall.
+      rewrite (Hall m Hm) in Hd. discriminate. }
+    rewrite Hf. reflexivity.
+Qed.
+
+(* conversely a ValueError has no other cause *)
+Theorem join_value_error_only_if inputs :
+  join_fixed inputs = Err EValue ->
+  (length inputs < 2)%nat \/ (exists m, In m inputs /\ wf_datetime m = false).
+Proof.
+  unfold join_fixed, join_gen. cbv zeta.
+  destruct (length inputs <? 2)%nat eqn:Elen.
+  { intros _. left. now apply Nat.ltb_lt. }
+  destruct (forallb wf_datetime inputs) eqn:Ewf; cbn [negb].
+  - fold (tagged_leb leb_num). fold (sorted_gen leb_num inputs).
+    pose proof (sorted_gen_perm leb_num inputs) as Hperm.
+    destruct (map snd (sorted_gen leb_num inputs)) as [|m0 rest] eqn:E.
+    + apply Permutation_nil in Hperm. subst inputs. discriminate.
+    + destruct (prune_all _ _ rest) as [feats warn].
+      destruct (join_files _ _ _) as [cols|e] eqn:Ej; [discriminate|].
+      intros [= ->]. exfalso.
+      (* neither fdata nor append_all nor join_files produce EValue *)
+      clear - Ej.
+      assert (Hfd : forall m ti f old, fdata m ti f old <> Err EValue).
+      { intros m ti f old. unfold fdata.
+        destruct (lookup_col f (m_cols m)); [|discriminate].
+        destruct (kind f =? 1); [discriminate|].
+        destruct (kind f =? 2);
+          [destruct (round_half_even (ti * m_rate m) 64 <? 0); discriminate|].
+        destruct (kind f =? 3); [discriminate|].
+        destruct (kind f =? 4); discriminate. }
+      assert (Hap : forall m ti st, append_all m ti st <> Err EValue).
+      { intros m ti st. induction st as [|[f old] r IH]; cbn [append_all];
+          [discriminate|].
+        destruct (fdata m ti f old) as [d|e] eqn:Ef.
+        - destruct (append_all m ti r) as [r'|e]; [discriminate|].
+          intros [= ->]. now apply IH.
+        - intros [= ->]. exact (Hfd _ _ _ _ Ef). }
+      revert Ej. generalize (map (fun f : Z => (f, @nil Z)) (sort_dedup feats)).
+      generalize (m0 :: rest). intros ms.
+      induction ms as [|m r IH]; intros st; cbn [join_files]; [discriminate|].
+      destruct (append_all m (acq_time8 m - acq_time8 m0) st) as [st'|e] eqn:Ea.
+      * apply IH.
+      * intros [= ->]. exact (Hap _ _ _ Ea).
+  - intros _. right. apply not_true_iff_false in Ewf.
+    destruct (forallb wf_datetime inputs) eqn:E2; [contradiction|].
+    clear Ewf. induction inputs as [|m r IH]; cbn [forallb] in E2; [discriminate|].
+    apply andb_false_iff in E2. destruct E2 as [E2|E2].
+    + exists m. split; [now left|exact E2].
+    + assert (Hl : (length r <? 2)%nat = false \/ True) by auto.
+      clear Hl.
+      assert (exists m', In m' r /\ wf_datetime m' = false) as [m' [Hm' Hd']].
+      { clear IH Elen. induction r as [|x r IHr]; cbn [forallb] in E2; [discriminate|].
+        apply andb_false_iff in E2. destruct E2 as [E2|E2].
+        - exists x. split; [now left|exact E2].
+        - destruct (IHr E2) as [m' [Hm' Hd']]. exists m'. split; [now right|exact Hd']. }
+      exists m'. split; [now right|exact Hd'].
+Qed.
+
+(* ---- "restricted to the features available in every input" ------------------ *)
+(* every exported feature is available (stored or computable) in every input,
+   the earliest included *)
+Theorem join_features_available_everywhere inputs j :
+  join_fixed inputs = Ok j -> Forall wf_meas inputs ->
+  forall f m, In f (j_feats j) -> In m inputs -> In f (m_avail m).
+Proof.
+  intros Hj Hwf f m Hf Hm.
+  destruct (join_features_common _ _ Hj) as [m0 [rest [Hs Hfe]]].
+  pose proof (sorted_gen_perm leb_num inputs) as Hperm. rewrite Hs in Hperm.
+  assert (Hwf' : Forall wf_meas (m0 :: rest)).
+  { eapply Permutation_Forall; [symmetry; exact Hperm|exact Hwf]. }
+  assert (Hm' : In m (m0 :: rest)).
+  { eapply Permutation_in; [symmetry; exact Hperm|exact Hm]. }
+  inversion Hwf' as [|? ? [Hnd [Hia _]] _]; subst.
+  rewrite (Hfe Hnd) in Hf. unfold spec_features in Hf.
+  apply filter_In in Hf. destruct Hf as [Hf0 Hall].
+  destruct Hm' as [<-|Hm'].
+  - apply Hia. eapply Permutation_in; [apply py_sorted_perm|exact Hf0].
+  - rewrite forallb_forall in Hall. apply mem_Z_In. now apply Hall.
 Qed.
 
 (* ---- logs ------------------------------------------------------------------ *)
@@ -486,7 +596,8 @@ Definition wf_measb (m : meas) : bool :=
   && forallb (fun f => mem Z.eqb f (m_avail m)) (m_innate m)
   && forallb (fun f => match lookup_col f (m_cols m) with
                        | Some _ => true | None => false end) (m_avail m)
-  && (0 <=? m_rate m).
+  && (0 <=? m_rate m)
+  && wf_datetime m.
 
 Lemma nodupb_NoDup l : nodupb l = true -> NoDup l.
 Proof.
@@ -499,10 +610,11 @@ Qed.
 Lemma wf_measb_sound m : wf_measb m = true -> wf_meas m.
 Proof.
   unfold wf_measb, wf_meas. intros H.
+  apply andb_true_iff in H. destruct H as [H Hdt].
   apply andb_true_iff in H. destruct H as [H Hr].
   apply andb_true_iff in H. destruct H as [H Hc].
   apply andb_true_iff in H. destruct H as [Hn Ha].
-  split; [now apply nodupb_NoDup|]. split; [|split; [|lia]].
+  split; [now apply nodupb_NoDup|]. split; [|split; [|split; [lia|exact Hdt]]].
   - intros f Hf. rewrite forallb_forall in Ha. now apply mem_Z_In, Ha.
   - intros f Hf. rewrite forallb_forall in Hc. specialize (Hc f Hf).
     destruct (lookup_col f (m_cols m)); [discriminate|discriminate].
@@ -514,7 +626,7 @@ Proof.
   intros m Hm. now apply wf_measb_sound, H.
 Qed.
 
-(* ---- the code as it was: refutations ------------------------------------ *)
+(* ---- example inputs; the mutate-while-iterating loop is not a filter ------- *)
 (* "2024-03-05", "12:00:00", "12:00:00.50" *)
 Definition d0305 := [50; 48; 50; 52; 45; 48; 51; 45; 48; 53].
 Definition t120000 := [49; 50; 58; 48; 48; 58; 48; 48].
@@ -544,35 +656,6 @@ Proof.
   exists (fun x => negb ((x =? 2) || (x =? 3))), [1; 2; 3; 4]. split.
   - repeat constructor; cbn; lia.
   - vm_compute. discriminate.
-Qed.
-
-Theorem join_orig_prune_refuted :
-  exists ms, Forall wf_meas ms /\ join_orig ms = Err EKey
-             /\ exists j, join_fixed ms = Ok j /\ j_feats j = [10; 40].
-Proof.
-  exists w_prune. split; [|split].
-  - apply wf_all_sound. vm_compute. reflexivity.
-  - vm_compute. reflexivity.
-  - eexists. split; vm_compute; reflexivity.
-Qed.
-
-Theorem join_orig_sort_refuted :
-  exists ms, Forall wf_meas ms /\ join_orig ms = Err EOverflow
-             /\ exists j, join_fixed ms = Ok j /\ j_order j = [0; 1].
-Proof.
-  exists w_sort. split; [|split].
-  - apply wf_all_sound. vm_compute. reflexivity.
-  - vm_compute. reflexivity.
-  - eexists. split; vm_compute; reflexivity.
-Qed.
-
-Theorem join_orig_run_order_refuted :
-  exists ms j, join_orig ms = Ok j /\ j_order j = [1; 0]
-               /\ exists j', join_fixed ms = Ok j' /\ j_order j' = [0; 1].
-Proof.
-  exists w_run. eexists. split; [vm_compute; reflexivity|].
-  split; [vm_compute; reflexivity|].
-  eexists. split; vm_compute; reflexivity.
 Qed.
 
 (* ---- non-vacuity ------------------------------------------------------- *)
